@@ -35,6 +35,7 @@ type World struct {
 	specFiles []string
 	impls     []ImplSpec
 	inits     []GhostInit
+	monitors  map[string]*FuncContract
 }
 
 // Ty is the type of a spec expression: a Go type, or a spec-only SMT sort.
@@ -94,6 +95,34 @@ func LoadWorld(dir string, patterns []string, extDir string, overlay map[string]
 			}
 		}
 		w.funcs[k] = fn
+	}
+	// methods of (generic) named types are not always reachable through AllFunctions: add them explicitly
+	for _, p := range pkgs {
+		if p.Types == nil {
+			continue
+		}
+		sc := p.Types.Scope()
+		for _, n := range sc.Names() {
+			tn, ok := sc.Lookup(n).(*types.TypeName)
+			if !ok {
+				continue
+			}
+			named, ok := tn.Type().(*types.Named)
+			if !ok {
+				continue
+			}
+			for i := 0; i < named.NumMethods(); i++ {
+				if fn := prog.FuncValue(named.Method(i)); fn != nil && len(fn.Blocks) > 0 {
+					k := funcKey(fn)
+					if _, ok := w.funcs[k]; !ok {
+						w.funcs[k] = fn
+						for _, an := range fn.AnonFuncs {
+							w.funcs[funcKey(an)] = an
+						}
+					}
+				}
+			}
+		}
 	}
 	// contract files: zz_verif_contracts*.go in root packages (and same-module deps), then ext files
 	seen := map[string]bool{}
@@ -220,6 +249,16 @@ func (w *World) addSpecFile(path, pkgPath string) error {
 	}
 	w.impls = append(w.impls, sf.Implements...)
 	w.inits = append(w.inits, sf.Inits...)
+	for _, m := range sf.Monitors {
+		k, err := w.contractKey(m)
+		if err != nil {
+			return fmt.Errorf("%s:%d: %v", m.File, m.Line, err)
+		}
+		if w.monitors == nil {
+			w.monitors = map[string]*FuncContract{}
+		}
+		w.monitors[k] = m
+	}
 	return nil
 }
 
@@ -329,6 +368,9 @@ func (w *World) resolveType(ctxPkg, text string, g *Gen) Ty {
 		g.declSort(text)
 		return Ty{Spec: text}
 	}
+	if tp, ok := g.tparamTypes[text]; ok {
+		return Ty{G: tp}
+	}
 	if strings.HasPrefix(text, "set[") && strings.HasSuffix(text, "]") {
 		k := w.resolveType(ctxPkg, text[4:len(text)-1], g)
 		return Ty{Spec: arraySort(g.tySort(k), SBool)}
@@ -389,6 +431,10 @@ func (w *World) resolveType(ctxPkg, text string, g *Gen) Ty {
 		pkgPath = p.PkgPath
 		name = text[i+1:]
 	}
+	targsText := ""
+	if i := strings.Index(name, "["); i > 0 && strings.HasSuffix(name, "]") {
+		targsText = name[i+1 : len(name)-1]
+	}
 	name = stripTypeArgs(name)
 	p := w.byPath[pkgPath]
 	if p == nil {
@@ -401,6 +447,23 @@ func (w *World) resolveType(ctxPkg, text string, g *Gen) Ty {
 	tn, ok := obj.(*types.TypeName)
 	if !ok {
 		g.fail("%s is not a type", text)
+	}
+	if targsText != "" {
+		if named, ok := tn.Type().(*types.Named); ok && named.TypeParams().Len() > 0 {
+			var targs []types.Type
+			for _, a := range splitTop(targsText, ',') {
+				at := w.resolveType(ctxPkg, strings.TrimSpace(a), g)
+				if at.G == nil {
+					g.fail("type argument %s of %s is not a Go type", a, text)
+				}
+				targs = append(targs, at.G)
+			}
+			inst, err := types.Instantiate(nil, named, targs, false)
+			if err != nil {
+				g.fail("cannot instantiate %s: %v", text, err)
+			}
+			return Ty{G: inst}
+		}
 	}
 	return Ty{G: tn.Type()}
 }
